@@ -761,11 +761,32 @@ def make_history(rng, quick, nops=None):
                     ncid += 1
                     dirty = True
                     break
-        elif r < 0.46:
+        elif r < 0.40:
             cid = rng.choice(sorted(live))
             del live[cid]
             hist.append(("del", cid))
             dirty = True
+        elif r < 0.43:
+            # a REFUSED insertion: the name / key is occupied -> ValueError, and nothing may have been registered
+            for _try in range(6):
+                t = g.term(depth, shared)
+                if has_leaf(t, shared):
+                    hist.append(("dupadd", rng.choice(sorted(live)), t))
+                    break
+        elif r < 0.46:
+            # a ConstraintDict attribute with one constraint, removed again as a whole (`del m.<dict>`)
+            for _try in range(6):
+                t = g.term(depth, shared)
+                if not has_leaf(t, shared):
+                    continue
+                trial = dict(live)
+                trial[ncid] = t
+                if live_ok(trial, shared, vv, pv):
+                    hist.append(("add", ncid, t, "tmpdict"))
+                    hist.append(("del", ncid))
+                    ncid += 1
+                    dirty = True
+                    break
         elif r < 0.66:
             # values
             targets = []
@@ -1020,6 +1041,10 @@ class Run:
         try:
             if path == "attr":
                 setattr(self.m, "c%d" % cid, con)
+            elif path == "tmpdict":
+                cdx = A.ConstraintDict()
+                cdx[cid] = con                      # not registered yet: the dict belongs to no model
+                self.m.cdx = cdx                    # Model.__setattr__ registers every constraint of the dict
             else:
                 self.m.cd[cid] = con
         except Exception as e:
@@ -1084,14 +1109,57 @@ class Run:
         try:
             if rec["path"] == "attr":
                 delattr(self.m, "c%d" % cid)
+            elif rec["path"] == "tmpdict":
+                delattr(self.m, "cdx")              # Model.__delattr__ must remove every constraint of the dict
             else:
                 del self.m.cd[cid]
         except Exception as e:
             self.fail("remove-exception-%s" % type(e).__name__, "removing a constraint raised %s: %s" % (type(e).__name__, e), i, cid=cid)
             raise Stop()
+        if rec["path"] == "tmpdict" and rec["con"] in self.m._con_ccon_map:
+            self.fail("delattr-constraintdict-keeps-constraints",
+                      "`del m.<ConstraintDict attribute>` removed the attribute but its constraint is still registered with the "
+                      "evaluator (%d registered constraints, %d expected)" % (len(self.m._con_ccon_map), len(self.live)), i, cid=cid)
+            raise Stop()
         self.count("removed")
         self.dirty = True
         self.mops.append(("del", cid))
+
+    def op_dupadd(self, i, cid, term):
+        """insert a constraint under an OCCUPIED name / key: must raise ValueError and leave the model as it was"""
+        if cid not in self.live:
+            return
+        rec = self.live[cid]
+        if rec["path"] == "tmpdict":
+            return
+        try:
+            obj = self.builder.build(totuple(term))
+        except Exception:
+            return
+        if type(obj) in (int, float, bool):
+            return
+        m = self.m
+        before = (len(m._con_ccon_map), len(m._var_cvar_map), len(m._param_cparam_map), len(m._float_cfloat_map), sorted(m._refcounts.values()),
+                  [v._c_obj is not None for v in self.vars])
+        con = self.A.Constraint(obj)
+        try:
+            if rec["path"] == "attr":
+                setattr(m, "c%d" % cid, con)
+            else:
+                m.cd[cid] = con
+            self.fail("occupied-key-accepted", "inserting a constraint under the occupied %s %r did not raise" % (
+                "attribute" if rec["path"] == "attr" else "ConstraintDict key", cid), i, cid=cid)
+            raise Stop()
+        except ValueError:
+            self.count("refused:occupied_key(%s)" % rec["path"])
+        after = (len(m._con_ccon_map), len(m._var_cvar_map), len(m._param_cparam_map), len(m._float_cfloat_map), sorted(m._refcounts.values()),
+                 [v._c_obj is not None for v in self.vars])
+        if after != before or con in m._con_ccon_map:
+            self.fail("refused-insertion-not-atomic",
+                      "a refused insertion (occupied %s) left the refused constraint registered: registered constraints %d -> %d, C vars %d -> %d" % (
+                          "attribute" if rec["path"] == "attr" else "ConstraintDict key", before[0], after[0], before[1], after[1]), i, cid=cid,
+                      term=term)
+            raise Stop()
 
     def op_setv(self, i, k, x, kind="value"):
         self.vars[k].value = x
